@@ -1,17 +1,20 @@
 ------------------------------ MODULE MCNarrow ------------------------------
 EXTENDS Narrow, Json
-CONSTANTS Emit, Rich
+CONSTANTS Emit, Rich,
+          Objects    \* x ranges over instances of two user-defined classes (they share ti's OBJECT type tag) and nil
 
 A(k, v, c) == [k |-> k, v |-> v, c |-> c]
-XAtoms == {A("nil", "x", ""), A("notnil", "x", ""), A("isa", "x", "Integer")}
-          \cup (IF Rich THEN {A("isa", "x", "String")} ELSE {})
+XAtoms == IF Objects THEN {A("nil", "x", ""), A("notnil", "x", ""), A("isa", "x", "VfFoo"), A("isa", "x", "VfBar")}
+          ELSE {A("nil", "x", ""), A("notnil", "x", ""), A("isa", "x", "Integer")}
+               \cup (IF Rich THEN {A("isa", "x", "String")} ELSE {})
 YAtoms == {A("isa", "y", "String"), A("isa", "y", "Float")}
           \cup (IF Rich THEN {A("nil", "y", ""), A("notnil", "y", "")} ELSE {})
 \* conjunctions: one test of x with one of y, and two different tests of the same variable
 SameVar == {<<a, b>> : a \in XAtoms, b \in XAtoms} \cup {<<a, b>> : a \in YAtoms, b \in YAtoms}
 MCConds == {<<a>> : a \in XAtoms \cup YAtoms} \cup {<<a, b>> : a \in XAtoms, b \in YAtoms}
            \cup {c \in SameVar : c[1] # c[2]}
-MCInitX == {{"Integer", "NilClass"}} \cup (IF Rich THEN {{"Integer", "String", "NilClass"}} ELSE {})
+MCInitX == IF Objects THEN {{"VfFoo", "VfBar", "NilClass"}}
+           ELSE {{"Integer", "NilClass"}} \cup (IF Rich THEN {{"Integer", "String", "NilClass"}} ELSE {})
 MCInitY == {{"String", "Float"}} \cup (IF Rich THEN {{"String", "Float", "NilClass"}} ELSE {})
 
 EmitInv == (Emit /\ Complete) => PrintT(ToJson(prog))
